@@ -4,7 +4,7 @@
 \* (iii) a detached single element, against :nth-child / :nth-last-child / :nth-of-type /
 \* :nth-last-of-type (An+B) for every (a, b) in Lo..Hi squared and the "of S" filters
 \* {none, a, :not(a)}; plus the keyword forms :first-child ... :only-of-type.
-EXTENDS CssDecl, TLC, Json, SequencesExt
+EXTENDS Ir, TLC, Json, SequencesExt
 CONSTANTS MaxRow, NegLo, Hi, ExtraMag
 Lo == 0 - NegLo
 Extra == ExtraMag \cup {0 - x : x \in ExtraMag}
@@ -37,4 +37,7 @@ Env == [nsmap |-> <<>>, scope |-> RootOf(doc)]
 Rel1(s) == {i \in Elems(doc) : Matches(doc, Env, <<Pool[s]>>, i)}
 Res == [s \in 1..Len(Pool) |-> MaskUpTo(Rel1(s), Len(doc.parent))]
 Emit == PrintT(ToJson([doc |-> doc, res |-> Res]))
+\* T-AlgoEqDecl: the implementation-shaped matcher over the compiled IR agrees with the declarative semantics
+AlgoEqDecl == \A s \in 1..Len(Pool) : \A i \in Elems(doc) :
+                 AlgoMatches(doc, Env, <<Pool[s]>>, i) = Matches(doc, Env, <<Pool[s]>>, i)
 =============================================================================
